@@ -29,7 +29,14 @@ for name in names:
         wt = f"/tmp/seedrun-{name}"
         subprocess.run(["git", "-C", "/repo", "worktree", "remove", "--force", wt], stderr=subprocess.DEVNULL)
         subprocess.run(["git", "-C", "/repo", "worktree", "add", "-q", wt, "HEAD"], check=True)
-        subprocess.run(["git", "-C", wt, "apply", patch], check=True)
+        ap = subprocess.run(["git", "-C", wt, "apply", patch], stderr=subprocess.PIPE, text=True)
+        if ap.returncode != 0:  # /repo moved on (a later fix: commit touched the same lines): try a 3-way merge
+            ap = subprocess.run(["git", "-C", wt, "apply", "--3way", patch], stderr=subprocess.PIPE, stdout=subprocess.PIPE, text=True)
+            if ap.returncode != 0 or subprocess.run(["git", "-C", wt, "diff", "--name-only", "--diff-filter=U"], stdout=subprocess.PIPE, text=True).stdout.strip():
+                rows.append((name, prop, "n/a", "(patch no longer applies to /repo HEAD: needs re-basing)", ap.stderr.strip()[-160:], round(time.time() - t0)))
+                print(rows[-1], flush=True)
+                subprocess.run(["git", "-C", "/repo", "worktree", "remove", "--force", wt])
+                continue
     try:
         env = dict(os.environ, VERIF_EVIDENCE_DIR="/tmp/seedrun-evidence", VERIF_REPO=wt, VERIF_SEED=os.environ.get("VERIF_SEED", "1"))
         p = subprocess.run(["./check", prop, "--tier", "quick"], cwd=here, env=env, stdout=subprocess.PIPE, stderr=subprocess.STDOUT, text=True)
